@@ -115,11 +115,27 @@ def mkdict(pairs):
     has = EMPTY_HAS
     mp = EMPTY_MAP
     for k, v in pairs:
-        kt = z3.StringVal(k) if isinstance(k, str) else k
-        keys.append(V.StrV(kt))
+        if isinstance(k, int) and not isinstance(k, bool):
+            kv = V.IntV(z3.IntVal(k))
+            kt = INTKEY(z3.IntVal(k))
+        else:
+            kt = z3.StringVal(k) if isinstance(k, str) else k
+            kv = V.StrV(kt)
+        keys.append(kv)
         has = z3.Store(has, kt, z3.BoolVal(True))
         mp = z3.Store(mp, kt, v)
     return V.DictV(valseq(keys), has, mp)
+
+
+def int_key_axioms(x):
+    """injectivity instances for the integer keys of a dict constant"""
+    out = []
+    if isinstance(x, dict):
+        for k, v in x.items():
+            if isinstance(k, int) and not isinstance(k, bool):
+                out.append(key_axiom(V.IntV(z3.IntVal(k))))
+            out.extend(int_key_axioms(v))
+    return out
 
 
 # ---------------------------------------------------------------- predicates
@@ -228,6 +244,61 @@ def simp(t):
     return z3.simplify(t)
 
 
+# dictionary / set keys: strings, or object references encoded by an injective function into strings that
+# start with NUL (no SECoP string contains NUL)
+OBJKEY = z3.Function('objkey', IntS, StrS)
+KEYOBJ = z3.Function('keyobj', StrS, IntS)
+
+
+INTKEY = z3.Function('intkey', IntS, StrS)
+KEYINT = z3.Function('keyint', StrS, IntS)
+
+
+def is_key(k):
+    c = _c(k)
+    if c in ('ObjV', 'IntV', 'BoolV', 'EnumV'):
+        return z3.BoolVal(True)
+    if c == 'FloatV':
+        # a whole float hashes and compares like the int
+        return z3.ToReal(z3.ToInt(k.arg(0))) == k.arg(0)
+    return V.is_StrV(k)      # a key of unknown kind is a string or not a key at all (A4)
+
+
+def ks(k):
+    """the key string of a key value (object keys are recognised when the constructor is known)"""
+    c = _c(k)
+    if c == 'StrV':
+        return k.arg(0)
+    if c == 'ObjV':
+        return OBJKEY(k.arg(0))
+    if c == 'IntV':
+        return INTKEY(k.arg(0))
+    if c == 'EnumV':
+        return INTKEY(k.arg(2))
+    if c == 'BoolV':
+        return INTKEY(z3.If(k.arg(0), z3.IntVal(1), z3.IntVal(0)))
+    if c == 'FloatV':
+        return INTKEY(z3.ToInt(k.arg(0)))
+    return V.s(k)
+
+
+_qi = z3.Int('k!inj')
+OBJKEY_INJ = z3.ForAll([_qi], z3.And(KEYOBJ(OBJKEY(_qi)) == _qi, z3.PrefixOf(z3.StringVal('\x00'), OBJKEY(_qi))),
+                       patterns=[OBJKEY(_qi)])
+INTKEY_INJ = z3.ForAll([_qi], z3.And(KEYINT(INTKEY(_qi)) == _qi, z3.PrefixOf(z3.StringVal('\x01'), INTKEY(_qi))),
+                       patterns=[INTKEY(_qi)])
+
+
+def key_axiom(k):
+    """the key encodings are injective (and disjoint from SECoP strings, which contain no control characters)"""
+    c = _c(k)
+    if c == 'ObjV':
+        return OBJKEY_INJ
+    if c in ('IntV', 'EnumV', 'BoolV', 'FloatV'):
+        return INTKEY_INJ
+    return z3.BoolVal(True)
+
+
 def seq_at(seq, i):
     """seq[i] with concatenations resolved structurally (the seq solver is weak on nth over concat)"""
     seq = simp(seq)
@@ -276,12 +347,13 @@ def wf_known(v):
     if c == 'FloatV':
         return z3.And(v.arg(0) <= FMAXR, v.arg(0) >= -FMAXR)
     if c == 'DictV':
-        ks, has = v.arg(0), v.arg(1)
+        kseq, has = v.arg(0), v.arg(1)
         return z3.And(
-            z3.ForAll([i], z3.Implies(z3.And(0 <= i, i < z3.Length(ks)),
-                                      z3.And(V.is_StrV(ks[i]), z3.Select(has, V.s(ks[i]))))),
-            z3.ForAll([i, j], z3.Implies(z3.And(0 <= i, i < j, j < z3.Length(ks)), ks[i] != ks[j])),
-            z3.Implies(z3.Length(ks) == 0, has == EMPTY_HAS))
+            z3.ForAll([i], z3.Implies(z3.And(0 <= i, i < z3.Length(kseq)),
+                                      z3.Or(z3.And(V.is_StrV(kseq[i]), z3.Select(has, V.s(kseq[i]))),
+                                            z3.And(V.is_ObjV(kseq[i]), z3.Select(has, OBJKEY(V.oid(kseq[i]))))))),
+            z3.ForAll([i, j], z3.Implies(z3.And(0 <= i, i < j, j < z3.Length(kseq)), kseq[i] != kseq[j])),
+            z3.Implies(z3.Length(kseq) == 0, has == EMPTY_HAS))
     if c == 'BytesV':
         b = v.arg(0)
         return z3.ForAll([i], z3.Implies(z3.And(0 <= i, i < z3.Length(b)), z3.And(b[i] >= 0, b[i] <= 255)))
